@@ -286,6 +286,51 @@ func workC09(w *run.W) {
 				try("single-crlf-piece", []cut{r}, true, true)
 			}
 		}
+		// cuts at directive boundaries that do not follow the tree: any text-order range of up to three directives with
+		// balanced parentheses (e.g. a directive with only its first children; the rest stays in the including file)
+		{
+			known := map[cut]bool{}
+			for _, r := range runs {
+				known[r] = true
+			}
+			extra := 0
+			for si := range ds.syms {
+				if ds.syms[si].Close || ds.syms[si].Kind == "JSIGHT" {
+					continue
+				}
+				depth, ndir := 0, 0
+				for e := si; e < len(ds.syms) && ndir <= 3; e++ {
+					if ds.syms[e].Close {
+						depth--
+						if depth < 0 {
+							break
+						}
+					} else {
+						ndir++
+						if ndir > 3 {
+							break
+						}
+						if ds.syms[e].Kind == "JSIGHT" {
+							break
+						}
+						if ds.syms[e].Explicit {
+							depth++
+						}
+					}
+					if depth == 0 {
+						c := cut{ds.symOffset(si), ds.symOffset(e + 1)}
+						if c.e > c.s && !known[c] {
+							known[c] = true
+							try("text-order-range", []cut{c}, true, false)
+							extra++
+						}
+					}
+				}
+				if !p.AllRuns && extra > 150 {
+					break
+				}
+			}
+		}
 		// nested chains along one path, depth 2 and 3
 		for i := range ds.dirs {
 			if ds.kindOf(i) == "JSIGHT" {
@@ -337,7 +382,7 @@ func workC09(w *run.W) {
 				}
 			}
 		}
-		if p.Pairs && len(runs) <= 60 {
+		if p.Pairs && len(runs) <= 30 {
 			for i := 0; i < len(runs); i++ {
 				for j := i + 1; j < len(runs); j++ {
 					a, b := runs[i], runs[j]
@@ -446,9 +491,9 @@ func c09Shared(w *run.W, dir string) {
 }
 
 func runC09(c *chk.Ctx) {
-	p := c09Params{AllRuns: !c.Quick(), Pairs: !c.Quick(), MaxBytes: chk.Pick(c, 20000, 200000)}
+	p := c09Params{AllRuns: !c.Quick(), Pairs: !c.Quick(), MaxBytes: chk.Pick(c, 20000, 60000)}
 	r := c.Pool.Run("c09", p)
 	c.Merge(r, "cuts")
 	c.Cov["params"] = p
-	c.Cov["rule"] = "every INCLUDE-free LF corpus document that is accepted or rule-rejected and whose directive tree the reference automaton confirms x every contiguous run of sibling directives at every level (quick: runs of length 1-2 and the whole sibling list; thorough: all runs and all pairs of disjoint cuts) moved to its own file and replaced by INCLUDE, with and without final newline in the piece, LF and CRLF pieces, plus nested include chains of depth 2 and 3 along a path, pieces placed in two sub-directories that include further pieces under the same written name, and hand-written documents in which one piece is included from two or three places (also through an intermediate piece). Generated models x INCLUDE moves are covered by C02 (catalog equality against the model) and C03/C07 (rule errors inside an INCLUDEd file). non-trivial = distinct split project"
+	c.Cov["rule"] = "every INCLUDE-free LF corpus document that is accepted or rule-rejected and whose directive tree the reference automaton confirms x every contiguous run of sibling directives at every level (quick: runs of length 1-2 and the whole sibling list; thorough: all runs and all pairs of disjoint cuts) moved to its own file and replaced by INCLUDE, with and without final newline in the piece, LF and CRLF pieces, plus every text-order range of up to three directives with balanced parentheses (cuts that do not follow the tree: a directive with only its first children), nested include chains of depth 2 and 3 along a path, pieces placed in two sub-directories that include further pieces under the same written name, and hand-written documents in which one piece is included from two or three places (also through an intermediate piece). Generated models x INCLUDE moves are covered by C02 (catalog equality against the model) and C03/C07 (rule errors inside an INCLUDEd file). non-trivial = distinct split project"
 }
